@@ -312,7 +312,12 @@ func VHSortLong() {
 // where no fixed pattern does. The run is concrete apart from the payloads; the input the
 // adversary settles on is then given to Sort / SortDesc as plain ints.
 func VHSortAdversary() {
-	lens := []int{40, 100, 300}
+	// every length from 34 to 72 (even and odd remainders reach the fallback differently), then 100 and 300
+	var lens []int
+	for l := 34; l <= 72; l++ {
+		lens = append(lens, l)
+	}
+	lens = append(lens, 100, 300)
 	n := lens[vChoose("len", len(lens))]
 	if vParam("ADVMAX") < n {
 		n = vParam("ADVMAX")
@@ -376,7 +381,34 @@ func VHSortAdversary() {
 			vAssert(s[i].payload == snap[t].payload, "Sort*Func (adversary): every element travels whole")
 		}
 	}
-	// the input the adversary settled on, as plain ordered values
+	// the input the adversary settled on, as plain ordered values - itself and a few rearrangements
+	// of it that keep its pivot-defeating head (the data that reaches a fallback is then different)
+	base := append([]int(nil), val...)
+	switch vChoose("rearrange", 5) {
+	case 1: // the largest value goes last
+		mi := 0
+		for i, v := range base {
+			if v > base[mi] {
+				mi = i
+			}
+		}
+		base[mi], base[n-1] = base[n-1], base[mi]
+	case 2: // the smallest value goes last
+		mi := 0
+		for i, v := range base {
+			if v < base[mi] {
+				mi = i
+			}
+		}
+		base[mi], base[n-1] = base[n-1], base[mi]
+	case 3: // the last two change places
+		base[n-1], base[n-2] = base[n-2], base[n-1]
+	case 4: // the second half reversed
+		for i, j := n/2, n-1; i < j; i, j = i+1, j-1 {
+			base[i], base[j] = base[j], base[i]
+		}
+	}
+	val = base
 	ints := append([]int(nil), val...)
 	ints2 := append([]int(nil), val...)
 	Sort(ints)
